@@ -10,7 +10,7 @@ PROPS = {
                       "equal by transitivity; update_rayon goes through the same generic update_with_join",
         "level_note": "trusted: Verus+z3, extraction rules, ArrayVec model (push requires len < CAP), std intrinsics, SIMD "
                       "kernels assumed (C05); &self purity and derive(Clone) by Rust's type system; domain: total input < 2^64 bytes",
-        "units": {"quick": [v("hasher"), v("tree"), v("spec_lemmas")], "thorough": [v("hasher", "C"), v("tree", "C"), v("hasher", "B"), v("hasher", "D"), k("deps_models"), k("largest_power_of_two_leq")]},
+        "units": {"quick": [v("hasher"), v("tree"), v("spec_lemmas")], "thorough": [v("hasher", "C"), v("tree", "C"), v("hasher", "B"), v("hasher", "D"), k("deps_models"), k("largest_power_of_two_leq"), s("C02")]},
         "explanation": "Hasher::repr(m): chunk_state represents m[1024T..], the CV stack is the spine decomposition "
                        "(sp_stack_ok) of the T complete chunks with sizes sp_sizes(T, n) that are strictly decreasing powers "
                        "of two except possibly the last two (lazy merging), ties to popcount proved as lemmas. merge_cv_stack, "
